@@ -328,12 +328,28 @@ def instructed_but_not_allowed(execs, st, need):
         cls = source_class(st["worker"], net)
         if cls in scopes:
             continue
+        # the known defect is the coarse rule by which the traversal shares setup (serial workers: with everybody;
+        # remote workers: with their swarm; lxc workers with the swarm scope: with everybody); setup taken over from a
+        # worker outside of that rule is not covered by it
+        if not traversal_shares(st, net):
+            continue
         for ex in execs:
             pst = ex["start"]
             if pst["worker"] == net and ex["status"] == "PASS" and ex["end"] is not None and ex["end"]["seq"] < st["seq"] \
                     and any(s_["obj"] == need["obj"] and s_["state"] == need["state"] for s_ in pst["sets"]):
                 return (net, cls)
     return None
+
+
+def traversal_shares(st, producer):
+    """Does the traversal's own reuse rule let the worker of ``st`` take over setup finished by ``producer``?"""
+    scopes = (st.get("pool_scope") or "").split()
+    swarm_of = lambda wid: wid.split(".")[0] if "." in wid else "localhost"
+    if st.get("spawner") == "lxc" and "swarm" not in scopes:
+        return producer == st["worker"]
+    if st.get("spawner") == "remote" and "cluster" not in scopes:
+        return swarm_of(producer) == swarm_of(st["worker"])
+    return True
 
 
 def own_pool_residue(events, st, need):
@@ -528,21 +544,7 @@ def check_C05(history):
                             o["end"] is not None and ev["seq"] < o["end"]["seq"] < st["seq"] and o["status"] == "PASS"
                             and any(s_["obj"] == r["obj"] and s_["state"] == r["state"] for s_ in o["start"]["sets"])
                             for o in execs)
-                        narrowed = not {"swarm", "cluster"} <= set(node_scope.split())
-                        lazy = history["scenario"].get("mode", "lazy") != "eager"
-                        expanded_before = any(
-                            o["start"]["cls"] == st["cls"] and o["start"]["seq"] < ev["seq"] and
-                            scope_key({"pool_scope": node_scope, "worker": o["start"]["worker"], "spawner": o["start"].get("spawner")}) == my_scope
-                            for o in execs)
-                        if not reproduced and narrowed and lazy and not expanded_before:
-                            # known defect: the reversal is postponed only while a test is unexpanded for ALL workers;
-                            # with separate reuse scopes a scope may not have expanded its own dependant yet
-                            out.append(V("C05", "unset-before-dependant/unexpanded-in-narrowed-scope",
-                                         f"removal of state {r['state']} of {vm_os} was requested before this reuse scope had expanded "
-                                         f"and run its own dependant (lazy parsing, narrowed pool scope)",
-                                         seq=ev["seq"], by=ev["worker"], dependant=st["label"], on=st["worker"],
-                                         dependant_seq=st["seq"], scope=node_scope))
-                        elif not reproduced:
+                        if not reproduced:
                             out.append(V("C05", "unset-before-dependant",
                                          f"removal of state {r['state']} of {vm_os} was requested before a dependant started",
                                          seq=ev["seq"], by=ev["worker"], dependant=st["label"], on=st["worker"],
@@ -563,11 +565,17 @@ def check_C08(history, worker_table=None):
         for ev in events:
             if ev["kind"] == "end":
                 ended.append(ev)
+            if ev["kind"].startswith("door.") and ev.get("params_worker") and ev["params_worker"] != ev["worker"]:
+                out.append(V("C08", "wrong-connection", "state control of a test went over the connection of another worker than the one "
+                             "its parameters name", test=ev["label"], connection=ev["worker"], named=ev["params_worker"], seq=ev["seq"]))
             if ev["kind"] != "start":
                 continue
             st = ev
             wid = st["worker"]
             access = st["access"]
+            if st.get("executed_on") not in (None, wid):
+                out.append(V("C08", "wrong-connection", f"{st['label']} was sent over the connection of another worker than its own",
+                             worker=wid, executed_on=st["executed_on"], seq=st["seq"]))
             if access.get("nets") != wid.split(".")[-1] and access.get("nets") != wid:
                 out.append(V("C08", "wrong-worker", f"{st['label']} parsed for another worker than the one running it",
                              worker=wid, nets=access.get("nets"), seq=st["seq"]))
